@@ -170,6 +170,7 @@ def run(ctx):
     for ln in ("load_brc20_mint_tx", "load_brc20_burn_tx", "load_brc20_deploy_tx"):
         lf = [f for f in F.fns.values() if f.name.endswith("brc20_controller::" + ln)]
         for f in lf:
+            f = F.inlined(f)      # the three loaders may share a private `controller_call_tx(calldata)` builder
             fi = [c for c in f.calls() if c.path and c.path.endswith("TxInfo::from_inscription")]
             R.ob(bool(fi) and all(mentions(origin(f, c.args[0]), "INDEXER_ADDRESS") for c in fi), "WIRE", f.where(), "WIRE|%s|from" % ln,
                  "%s does not run as the indexer address" % ln, sample={"rule": "WIRE", "sink": ln + ".from", "origin": "INDEXER_ADDRESS"})
